@@ -4,6 +4,7 @@ import (
 	"encoding/json"
 	"fmt"
 	"os"
+	"path/filepath"
 	"strings"
 	"time"
 
@@ -68,6 +69,14 @@ func OpenHub(dir string, knobs map[string]int64) (h *Hub, err error) {
 		}
 	}()
 	env := newEnv(dir, knobs)
+	if knobs["provisionedID"] == 1 {
+		// an operator has given the store a name of its own for its backups (the hub only writes an id if there is none)
+		idf := filepath.Join(dir, "DATAHUB_BACKUPID")
+		if _, err := os.Stat(idf); err != nil {
+			_ = os.MkdirAll(dir, 0o755)
+			_ = os.WriteFile(idf, []byte("datahub-"+filepath.Base(dir)), 0o644)
+		}
+	}
 	h = &Hub{Dir: dir, Env: env, Logs: lastObserved}
 	h.Store = server.NewStore(env, &statsd.NoOpClient{})
 	h.Dsm = server.NewDsManager(env, h.Store, server.NoOpBus())
